@@ -30,6 +30,12 @@ func main() {
 		cmdDump(os.Args[2:])
 	case "check":
 		os.Exit(cmdCheck(os.Args[2:]))
+	case "replay":
+		if len(os.Args) < 3 {
+			fmt.Println("usage: govc replay <replay.json>")
+			os.Exit(64)
+		}
+		os.Exit(cmdReplay(os.Args[2]))
 	case "sweep":
 		os.Exit(cmdSweep(os.Args[2:]))
 	case "parse":
